@@ -172,7 +172,13 @@ def sources_case(item):
     root = tempfile.mkdtemp(prefix='c16s-', dir=tlc.WORK_ROOT)
     try:
         with contextlib.redirect_stdout(io.StringIO()):
-            res, dp, _ = Flow(*prev, DF.sources(*new), DF.dump_to_path(root + '/o')).results()
+            if item.get('grouped'):
+                # ONE source that brings all k resources (each numbered from res_1 by its own flow), after a resource whose
+                # name is already the one the renaming would try first
+                pre = [DF.update_resource(-1, name='res_%d' % (n + 1), path='res_%d.csv' % (n + 1))] if n else []
+                res, dp, _ = Flow(*prev, *pre, DF.sources(Flow(*new)), DF.dump_to_path(root + '/o')).results()
+            else:
+                res, dp, _ = Flow(*prev, DF.sources(*new), DF.dump_to_path(root + '/o')).results()
         names = [r['name'] for r in dp.descriptor['resources']]
         if len(set(names)) != len(names):
             return dict(ok=False, why='resource names are not unique after sources()', got=names)
@@ -337,7 +343,7 @@ def run():
         if not out['ok']:
             rep.violation(dict(twin=it), dict(program='%d resources, duplicate(res_%d, to_end=%s), then %s on the %s only' % (it['n'], it['pos'] + 1, it['to_end'], it['edit'], it['which']),
                                               **{k_: v for k_, v in out.items() if k_ != 'ok'}), category='duplicate-then-edit-one-twin/%s' % out['why'][:40])
-    sc = [dict(n=n, k=k) for n in (0, 1, 2) for k in (1, 2, 3)]
+    sc = [dict(n=n, k=k) for n in (0, 1, 2) for k in (1, 2, 3)] + [dict(n=n, k=k, grouped=True) for n in (1, 2) for k in (2, 3)]
     for it, out in zip(sc, pmap(sources_case, sc, procs=1)):
         if '__harness_error__' in out:
             raise tlc.MachineryError('harness error: ' + out['__harness_error__'])
